@@ -5,7 +5,7 @@ import sys
 import time
 
 from . import core, engine, roles as roles_mod
-from . import search, nfa
+from . import search, nfa, da
 
 TRUSTED = [
     "L1: for a power of two B, x < kB and c < B imply x ^ c < kB; next_power_of_two(n) >= n",
@@ -20,35 +20,147 @@ ASSUME = [
 ]
 
 
+class Env:
+    """lazily resolved role tables shared by the rule groups of one run"""
+
+    def __init__(self, ctx, R):
+        self.ctx, self.R = ctx, R
+        self._nr = self._br = None
+
+    @property
+    def NR(self):
+        if self._nr is None:
+            self._nr = nfa.NfaRoles(self.ctx, self.R)
+            if self._nr.ok:
+                # classify the fail passes (standard / leftmost) without recording obligations
+                saved = list(self.ctx.obl), set(self.ctx._seen_keys)
+                nfa.rule_fail_passes(self.ctx, self.R, self._nr)
+                self.ctx.obl[:] = saved[0]
+                self.ctx._seen_keys = saved[1]
+        return self._nr
+
+    @property
+    def BR(self):
+        if self._br is None:
+            self._br = da.BuilderRoles(self.ctx, self.R, self.NR)
+        return self._br
+
+
+def construction_rules(ctx, R, E):
+    """NFA + DA groups shared by C01-C05: the automaton the iterators walk is built correctly"""
+    nfa.rule_outputs_pass(ctx, R, E.NR)
+    nfa.rule_fail_passes(ctx, R, E.NR)
+    da.rule_placement(ctx, R, E.NR, E.BR, rules={"DA-EDGE", "DA-BASE", "B-BASE", "B-EXT", "B-FAIL", "B-OPOS", "KNOB-SAN"})
+    da.rule_find_base(ctx, R, E.NR, E.BR)
+    da.rule_dispatch(ctx, R, E.NR, E.BR, rules={"NFA-DISPATCH"})
+
+
 def run_C01(ctx, R):
+    E = Env(ctx, R)
     search.rule_iter_standard(ctx, R, kinds=("overlapping",))
     search.rule_trans(ctx, R)
+    construction_rules(ctx, R, E)
+    da.rule_sanitiser(ctx, R, E.NR, E.BR)
+    da.rule_array_growth(ctx, R, E.NR, E.BR)
 
 
 def run_C02(ctx, R):
+    E = Env(ctx, R)
     search.rule_iter_standard(ctx, R, kinds=("find",))
     search.rule_trans(ctx, R)
+    construction_rules(ctx, R, E)
 
 
 def run_C03(ctx, R):
+    E = Env(ctx, R)
     search.rule_iter_leftmost(ctx, R)
     search.rule_trans(ctx, R)
+    construction_rules(ctx, R, E)
 
 
 def run_C04(ctx, R):
+    E = Env(ctx, R)
     search.rule_iter_leftmost(ctx, R)
     search.rule_trans(ctx, R)
+    nfa.rule_add(ctx, R, E.NR, rules={"NFA-LF", "STAT-SHADOW", "VAL-ADD"})
+    construction_rules(ctx, R, E)
 
 
 def run_C05(ctx, R):
+    E = Env(ctx, R)
     search.rule_iter_standard(ctx, R, kinds=("nosuffix",))
     search.rule_trans(ctx, R)
+    construction_rules(ctx, R, E)
+
+
+def run_C06(ctx, R):
+    E = Env(ctx, R)
+    search.rule_iter_standard(ctx, R, rules={"VAL-MATCH", "ITER-HEAD", "LAZY-END"})
+    search.rule_iter_leftmost(ctx, R, rules={"VAL-MATCH", "ITER-HEAD"})
+    nfa.rule_add(ctx, R, E.NR, rules={"VAL-ADD"})
+    nfa.rule_outputs_pass(ctx, R, E.NR)
+    nfa.rule_num_bytes(ctx, R, E.NR)
+    da.rule_dispatch(ctx, R, E.NR, E.BR, rules={"VALID-PROP", "CW-NB"})
+    da.rule_build_entry(ctx, R, E.NR, E.BR, rules={"VAL-IDX", "B-MOVE"})
 
 
 def run_C07(ctx, R):
+    E = Env(ctx, R)
     search.rule_safe_idx(ctx, R)
     search.rule_safe_param(ctx, R)
     search.rule_safe_field(ctx, R)
+    search.rule_iter_leftmost(ctx, R, rules={"SAFE-STR"})
+    nfa.rule_outputs_pass(ctx, R, E.NR)
+    da.rule_placement(ctx, R, E.NR, E.BR, rules={"B-BASE", "B-EXT", "B-FAIL", "B-OPOS", "DA-EDGE"})
+    da.rule_find_base(ctx, R, E.NR, E.BR)
+    da.rule_array_growth(ctx, R, E.NR, E.BR)
+    da.rule_build_entry(ctx, R, E.NR, E.BR, rules={"B-MOVE"})
+    da.rule_dispatch(ctx, R, E.NR, E.BR, rules={"B-MAP"})
+
+
+def run_C08(ctx, R):
+    E = Env(ctx, R)
+    nfa.rule_num_bytes(ctx, R, E.NR)
+    da.rule_dispatch(ctx, R, E.NR, E.BR, rules={"CW-NB"})
+    search.rule_iter_leftmost(ctx, R, rules={"SAFE-STR"})
+    search.rule_trans(ctx, R)
+
+
+def run_C10(ctx, R):
+    E = Env(ctx, R)
+    nfa.rule_add(ctx, R, E.NR, rules={"VALID-DUP", "VALID-EMPTY", "VALID-NONEMPTY"})
+    da.rule_dispatch(ctx, R, E.NR, E.BR, rules={"VALID-NONEMPTY", "VALID-PROP"})
+    da.rule_build_entry(ctx, R, E.NR, E.BR, rules={"VALID-CONV", "VALID-ENTRY", "VALID-PROP"})
+
+
+def run_C11(ctx, R):
+    E = Env(ctx, R)
+    da.rule_array_growth(ctx, R, E.NR, E.BR)
+    da.rule_sanitiser(ctx, R, E.NR, E.BR)
+    da.rule_placement(ctx, R, E.NR, E.BR, rules={"KNOB-SAN", "DA-BASE", "B-EXT"})
+    da.rule_find_base(ctx, R, E.NR, E.BR)
+
+
+def run_C12(ctx, R):
+    search.rule_iter_standard(ctx, R, rules={"LAZY-PULL", "LAZY-END", "LAZY-NOBUF", "ITER-EXHAUST", "ITER-LABEL"})
+
+
+def run_C13(ctx, R):
+    E = Env(ctx, R)
+    nfa.rule_outputs_pass(ctx, R, E.NR)
+    nfa.rule_fail_passes(ctx, R, E.NR)
+    search.rule_trans(ctx, R)
+
+
+def run_C14(ctx, R):
+    E = Env(ctx, R)
+    da.rule_dispatch(ctx, R, E.NR, E.BR, rules={"PERM-FREQ", "B-MAP"})
+
+
+def run_C15(ctx, R):
+    E = Env(ctx, R)
+    nfa.rule_add(ctx, R, E.NR, rules={"STAT-NS", "STAT-SHADOW"})
+    da.rule_build_entry(ctx, R, E.NR, E.BR, rules={"STAT-NS"})
 
 
 def run_NFA(ctx, R):
@@ -59,14 +171,33 @@ def run_NFA(ctx, R):
     nfa.rule_num_bytes(ctx, R, NR)
 
 
+def run_DA(ctx, R):
+    E = Env(ctx, R)
+    da.rule_placement(ctx, R, E.NR, E.BR)
+    da.rule_find_base(ctx, R, E.NR, E.BR)
+    da.rule_array_growth(ctx, R, E.NR, E.BR)
+    da.rule_sanitiser(ctx, R, E.NR, E.BR)
+    da.rule_dispatch(ctx, R, E.NR, E.BR)
+    da.rule_build_entry(ctx, R, E.NR, E.BR)
+
+
 PROPS = {
     "NFA": (run_NFA, False, "dev: all nfa rules"),
-    "C01": (run_C01, False, "ITER(overlapping) TRANS: structural necessary conditions of overlapping search"),
-    "C02": (run_C02, False, "ITER(find) TRANS"),
-    "C03": (run_C03, False, "ITER-LM TRANS(leftmost)"),
-    "C04": (run_C04, False, "ITER-LM TRANS(leftmost) NFA-LF"),
-    "C05": (run_C05, False, "ITER(no-suffix) TRANS"),
-    "C07": (run_C07, False, "SAFE-*"),
+    "DA": (run_DA, False, "dev: all da rules"),
+    "C01": (run_C01, False, "ITER(overlapping) TRANS NFA DA KNOB-SAN: structural necessary conditions of overlapping search"),
+    "C02": (run_C02, False, "ITER(find) TRANS NFA DA"),
+    "C03": (run_C03, False, "ITER-LM TRANS(leftmost) NFA-LM NFA-DISPATCH SAFE-STR"),
+    "C04": (run_C04, False, "C03's groups + NFA-LF"),
+    "C05": (run_C05, False, "ITER(no-suffix) TRANS NFA DA"),
+    "C06": (run_C06, False, "VAL-* CW-NB LAZY-END"),
+    "C07": (run_C07, False, "SAFE-* B-*"),
+    "C08": (run_C08, False, "CW-* DEC"),
+    "C10": (run_C10, False, "VALID-*"),
+    "C11": (run_C11, False, "KNOB-* DA-BASE"),
+    "C12": (run_C12, False, "LAZY-*"),
+    "C13": (run_C13, False, "TERM-*"),
+    "C14": (run_C14, False, "PURE-* DET-EFFECT PERM-*"),
+    "C15": (run_C15, False, "STAT-*"),
 }
 
 
